@@ -76,3 +76,21 @@ type PosMixin struct {
 
 // MyPos is a named type convertible from lexer.Position (position style 3).
 type MyPos lexer.Position
+
+// Example is a parser of one of the repository's example grammars, compiled
+// from a copy of the example's sources taken at check time.
+type Example struct {
+	Name   string
+	Parser Built
+	// UserCode marks grammars with Parseable / ParseTypeWith code, whose
+	// errors may be foreign (error well-formedness is then not judged).
+	UserCode bool
+}
+
+// Examples holds the example grammars compiled into this binary.
+var Examples []*Example
+
+// RegParser registers an example grammar's package-level parser.
+func RegParser[G any](name string, p *participle.Parser[G], userCode bool) {
+	Examples = append(Examples, &Example{Name: name, Parser: built[G]{p}, UserCode: userCode})
+}
